@@ -218,6 +218,19 @@ func runC15(c *hx.Ctx) *hx.Outcome {
 			o.Probe("frame:other-type")
 		}
 	}
+	// siblings: "the next message from the same receiver" - nearly the same frame
+	// (same masks and other values, one signal or satellite more or less, only the
+	// antenna height different, the neighbouring type number ...)
+	if t.SBool(1, 2) {
+		for i := 1 + t.S(3); i > 0; i-- {
+			sg, kind := gnss.SiblingFrame(t, pool[t.S(len(pool))])
+			if kind != "" {
+				pool = append(pool, sg.Bytes)
+				o.Probe("frame:sibling")
+				o.Probe("sibling:" + kind)
+			}
+		}
+	}
 	// a twin: a different frame of the same type with the same CRC
 	if t.SBool(1, 4) {
 		if tw := gnss.Twin(t, pool[t.S(len(pool))]); tw != nil {
